@@ -169,7 +169,27 @@ func runControls(repo, prop string, pr *rules.Prop, res *core.Result) bool {
 	}
 	var outs []outcome
 	fail := false
-	for _, ct := range rules.Controls {
+	// pre-pass: the overlays of the controls that apply, loaded ahead of use
+	ctlOverlay := map[int]int{}
+	var overlays []map[string][]byte
+	for ci, ct := range rules.Controls {
+		if ct.Prop != prop || ct.Rule == "" {
+			continue
+		}
+		abs := filepath.Join(repo, ct.File)
+		src, err := os.ReadFile(abs)
+		if err != nil {
+			continue
+		}
+		re, err := regexp.Compile("(?s)" + ct.Old)
+		if err != nil || len(re.FindAllIndex(src, -1)) != 1 {
+			continue
+		}
+		ctlOverlay[ci] = len(overlays)
+		overlays = append(overlays, map[string][]byte{abs: re.ReplaceAll(src, []byte(ct.New))})
+	}
+	pf := newPrefetcher(repo, overlays, 3)
+	for ci, ct := range rules.Controls {
 		if ct.Prop != prop {
 			continue
 		}
@@ -192,9 +212,9 @@ func runControls(repo, prop string, pr *rules.Prop, res *core.Result) bool {
 			outs = append(outs, o)
 			continue
 		}
-		mutated := re.ReplaceAll(src, []byte(ct.New))
-		p, err := load.Load(repo, load.Config{}, map[string][]byte{abs: mutated})
+		p, err := pf.get(ctlOverlay[ci])
 		if err != nil {
+			pf.done()
 			o.Result = "skipped: mutant does not type-check (" + firstLine(err.Error()) + ")"
 			outs = append(outs, o)
 			continue
@@ -203,6 +223,8 @@ func runControls(repo, prop string, pr *rules.Prop, res *core.Result) bool {
 		for _, r := range pr.Rules {
 			rules.RunRule(c, r)
 		}
+		p = nil
+		pf.done()
 		if ct.Rule == rules.CleanVariant {
 			// behaviour-preserving variant: no finding may appear that the unmodified tree does not have
 			base := map[string]bool{}
@@ -303,6 +325,15 @@ func runRefactorings(repo, verif, prop string, pr *rules.Prop, res *core.Result)
 		base[f.Key()] = true
 	}
 	n, silent := 0, 0
+	// pre-pass: parse every patch, keep those that touch an anchor file and apply to the current tree
+	type job struct {
+		id      string
+		files   []string
+		overlay int // index into overlays, -1: skipped
+		skip    string
+	}
+	var jobs []job
+	var overlays []map[string][]byte
 	for _, pth := range dirs {
 		id := filepath.Base(filepath.Dir(pth))
 		data, err := os.ReadFile(pth)
@@ -311,7 +342,7 @@ func runRefactorings(repo, verif, prop string, pr *rules.Prop, res *core.Result)
 		}
 		fps, err := udiff.Parse(string(data))
 		if err != nil {
-			outs = append(outs, outcome{ID: id, Result: "skipped: " + err.Error()})
+			jobs = append(jobs, job{id: id, overlay: -1, skip: err.Error()})
 			continue
 		}
 		relevant := false
@@ -342,11 +373,22 @@ func runRefactorings(repo, verif, prop string, pr *rules.Prop, res *core.Result)
 			overlay[abs] = []byte(patched)
 		}
 		if skip != "" {
-			outs = append(outs, outcome{ID: id, Files: files, Result: "skipped: " + skip})
+			jobs = append(jobs, job{id: id, files: files, overlay: -1, skip: skip})
 			continue
 		}
-		p, err := load.Load(repo, load.Config{}, overlay)
+		jobs = append(jobs, job{id: id, files: files, overlay: len(overlays)})
+		overlays = append(overlays, overlay)
+	}
+	pf := newPrefetcher(repo, overlays, 3)
+	for _, j := range jobs {
+		id, files := j.id, j.files
+		if j.overlay < 0 {
+			outs = append(outs, outcome{ID: id, Files: files, Result: "skipped: " + j.skip})
+			continue
+		}
+		p, err := pf.get(j.overlay)
 		if err != nil {
+			pf.done()
 			outs = append(outs, outcome{ID: id, Files: files, Result: "skipped: does not type-check on the current tree (" + firstLine(err.Error()) + ")"})
 			continue
 		}
@@ -370,7 +412,7 @@ func runRefactorings(repo, verif, prop string, pr *rules.Prop, res *core.Result)
 			fmt.Printf("SELFTEST-FAIL behaviour-preserving refactoring %s raised %d finding(s), first: %s\n", id, len(extra), firstLine(extra[0]))
 		}
 		p, c = nil, nil
-		debug.FreeOSMemory()
+		pf.done()
 	}
 	if res.Extra == nil {
 		res.Extra = map[string]interface{}{}
@@ -380,6 +422,49 @@ func runRefactorings(repo, verif, prop string, pr *rules.Prop, res *core.Result)
 	res.Extra["refactoring_variants_silent"] = silent
 	fmt.Printf("%s refactorings: %d applied, %d silent, %d skipped\n", prop, n, silent, len(outs)-n)
 	return fail
+}
+
+// prefetcher loads overlay variants of the repository ahead of their use, a bounded number at a time: loading
+// (parse + type-check + SSA) is the expensive, thread-safe part; the rules then run sequentially on each program.
+type prefetcher struct {
+	res     []chan loadRes
+	tickets chan struct{}
+}
+
+type loadRes struct {
+	p   *load.Program
+	err error
+}
+
+func newPrefetcher(repo string, overlays []map[string][]byte, window int) *prefetcher {
+	pf := &prefetcher{tickets: make(chan struct{}, window)}
+	for i := 0; i < window; i++ {
+		pf.tickets <- struct{}{}
+	}
+	for range overlays {
+		pf.res = append(pf.res, make(chan loadRes, 1))
+	}
+	go func() {
+		for i, ov := range overlays {
+			<-pf.tickets
+			go func(i int, ov map[string][]byte) {
+				p, err := load.Load(repo, load.Config{}, ov)
+				pf.res[i] <- loadRes{p, err}
+			}(i, ov)
+		}
+	}()
+	return pf
+}
+
+// get returns variant i; done must be called when its program is no longer needed.
+func (pf *prefetcher) get(i int) (*load.Program, error) {
+	r := <-pf.res[i]
+	return r.p, r.err
+}
+
+func (pf *prefetcher) done() {
+	debug.FreeOSMemory()
+	pf.tickets <- struct{}{}
 }
 
 func firstLine(s string) string {
